@@ -37,6 +37,80 @@ fn fnv(s: &str) -> u64 {
     h
 }
 
+/// Long runs of one character inside the string literals of a Gallina term are written as
+/// `rep_str "c" n` (Corr/CorrExp.v): Coq needs minutes to read a 64 KiB literal.
+fn compress_literals(g: &str) -> String {
+    let b: Vec<char> = g.chars().collect();
+    let mut out = String::with_capacity(g.len().min(1 << 16));
+    let mut i = 0;
+    while i < b.len() {
+        if b[i] != '"' {
+            out.push(b[i]);
+            i += 1;
+            continue;
+        }
+        // literal: up to the closing quote ("" is an escaped quote)
+        let mut j = i + 1;
+        let mut content: Vec<char> = vec![];
+        loop {
+            if j >= b.len() {
+                break;
+            }
+            if b[j] == '"' {
+                if j + 1 < b.len() && b[j + 1] == '"' {
+                    content.push('"');
+                    j += 2;
+                    continue;
+                }
+                break;
+            }
+            content.push(b[j]);
+            j += 1;
+        }
+        let lit = |cs: &[char]| -> String {
+            let mut s = String::from("\"");
+            for c in cs {
+                if *c == '"' {
+                    s.push_str("\"\"");
+                } else {
+                    s.push(*c);
+                }
+            }
+            s.push('"');
+            s
+        };
+        if content.len() < 600 {
+            out.push_str(&lit(&content));
+        } else {
+            let mut segs: Vec<String> = vec![];
+            let mut k = 0;
+            let mut plain_start = 0;
+            while k < content.len() {
+                let mut r = k;
+                while r < content.len() && content[r] == content[k] {
+                    r += 1;
+                }
+                if r - k >= 256 {
+                    if plain_start < k {
+                        segs.push(lit(&content[plain_start..k]));
+                    }
+                    segs.push(format!("rep_str {} {}%N", lit(&content[k..k + 1]), r - k));
+                    plain_start = r;
+                }
+                k = r;
+            }
+            if plain_start < content.len() {
+                segs.push(lit(&content[plain_start..]));
+            }
+            out.push('(');
+            out.push_str(&segs.join(" +++ "));
+            out.push(')');
+        }
+        i = j + 1;
+    }
+    out
+}
+
 fn render(orm: Orm, t: &TableDef, schema: &[TableDef]) -> Result<String, String> {
     match catch_unwind(AssertUnwindSafe(|| render_entity_with_schema(orm, t, schema))) {
         Ok(Ok(s)) => Ok(s),
@@ -265,7 +339,7 @@ fn cmd_gen(args: &[String]) {
                 "py_status": {"sqlalchemy": sa.as_ref().err(), "sqlmodel": sm.as_ref().err()},
                 "n_fk": t.constraints.iter().filter(|c| matches!(c, vespertide_core::TableConstraint::ForeignKey{..})).count()}));
         }
-        shard_cases.push(format!("(mkXC {} [{}])", m.gs(), xts.join("; ")));
+        shard_cases.push(compress_literals(&format!("(mkXC {} [{}])", m.gs(), xts.join("; "))));
         let _ = writeln!(obs_lines, "{}", json!({"idx": i, "tag": tag, "tables": tabs}));
     }
     let header = "From VV.EXP Require Import CorrExp.\n";
@@ -294,7 +368,7 @@ fn cmd_gen(args: &[String]) {
             },
             _ => "None".into(),
         };
-        disp_cases.push(format!("(mkDC {} {} {})", a.gs(), out_g, ty));
+        disp_cases.push(compress_literals(&format!("(mkDC {} {} {})", a.gs(), out_g, ty)));
         let big = serde_json::to_string(a).map(|s| s.len() > 4000).unwrap_or(false);
         let _ = writeln!(disp_side, "{}", json!({"idx": i, "tag": tag, "panic": r.is_err(), "len": r.as_ref().map(|s| s.len()).unwrap_or(0),
             "action": if big { json!({"omitted": "long string", "kind": format!("{:?}", std::mem::discriminant(a))}) } else { serde_json::to_value(a).unwrap_or(Value::Null) }}));
@@ -424,7 +498,13 @@ fn cmd_c16(args: &[String]) {
     let cases = load_cases(&arg(args, "--cases", ""));
     let start: usize = arg(args, "--start", "0").parse().unwrap();
     let skip_first: Vec<String> = arg(args, "--skip", "").split(',').filter(|s| !s.is_empty()).map(|s| s.to_string()).collect();
-    std::panic::set_hook(Box::new(|_| {}));
+    // one line per panic on stdout: where and (truncated) why — the driver attaches it to the failing stage
+    std::panic::set_hook(Box::new(|info| {
+        let loc = info.location().map(|l| format!("{}:{}", l.file(), l.line())).unwrap_or_default();
+        let msg = if let Some(s) = info.payload().downcast_ref::<&str>() { s.to_string() } else if let Some(s) = info.payload().downcast_ref::<String>() { s.clone() } else { String::new() };
+        let short: String = msg.chars().take(160).collect();
+        println!("PANICMSG {} {}", loc, short.replace('\n', " "));
+    }));
     for c in &cases {
         let i = c["idx"].as_u64().unwrap_or(0) as usize;
         if i < start {
